@@ -245,13 +245,29 @@ def unit_ctor(model):
     return recs
 
 
-def unit_rebuild(model, sizes, ranks, twins=False):
+def unit_rebuild(model, sizes, ranks, twins=False, generic=False):
+    try:
+        return _unit_rebuild(model, sizes, ranks, twins, generic)
+    except Exception as e:  # noqa: BLE001
+        from ..symrt import UncutLoop
+        if generic and isinstance(e, UncutLoop):
+            return [driver.rec(f"C20/{model}/rebuild-identical/any-team-size/unbounded-proof@n={len(sizes)}", "note", "explorer", 0, kind="note", fn=f"{model}.rate",
+                               shape=f"n={len(sizes)},any-team-size", note=f"not attempted: {e}")]
+        raise
+
+
+def _unit_rebuild(model, sizes, ranks, twins, generic):
     """twins: the first player of every other team is a stored snapshot (copy.deepcopy: same id, same
     values, distinct object) of the first player of team 0 - a player against her own stored ghost"""
     import copy as _copy
     recs = []
-    shape = f"sizes={sizes},ranks={ranks}" + (",stored snapshot of a player in the same game" if twins else "")
-    S = extract.Scratch(model)
+    shape = (f"sizes={sizes}" if not generic else f"n={len(sizes)},any-team-size") + f",ranks={ranks}" + (",stored snapshot of a player in the same game" if twins else "")
+    if generic:
+        # sizes = (1,)*n: teams of symbolic size (pyvc/teams.py); rebuilding a team = rebuilding its arbitrary member
+        from .. import teams as T
+        S = T.scratch(model)
+    else:
+        S = extract.Scratch(model)
     game.stub_gauss_uninterpreted(S)
     from .c14 import _do
     for op in OPS:
@@ -261,13 +277,21 @@ def unit_rebuild(model, sizes, ranks, twins=False):
             def run(ctx, op=op, via=via):
                 m1, _ = game.mk_model(ctx, S)
                 m2, _ = game.mk_model(ctx, S)
-                g1 = game.mk_teams(ctx, S, sizes)
-                g0 = game.mk_teams(ctx, S, sizes)
+                if generic:
+                    g1 = [T.SymTeam(ctx, S.rating_cls, i) for i in range(len(sizes))]
+                    g0 = [T.SymTeam(ctx, S.rating_cls, i) for i in range(len(sizes))]
+                    for t in g0:
+                        t.g = m2.rating(t.g.mu, t.g.sigma) if via == "rating" else S.cls.create_rating([t.g.mu, t.g.sigma])
+                else:
+                    g1 = game.mk_teams(ctx, S, sizes)
+                    g0 = game.mk_teams(ctx, S, sizes)
                 if twins:
                     for i in range(1, len(sizes)):
                         g1[i][0] = _copy.deepcopy(g1[0][0])
                         g0[i][0].mu, g0[i][0].sigma = g0[0][0].mu, g0[0][0].sigma
-                if via == "rating":
+                if generic:
+                    g2 = g0
+                elif via == "rating":
                     g2 = [[m2.rating(p.mu, p.sigma) for p in t] for t in g0]
                 else:
                     g2 = [[S.cls.create_rating([p.mu, p.sigma]) for p in t] for t in g0]
@@ -279,7 +303,7 @@ def unit_rebuild(model, sizes, ranks, twins=False):
                             "game": game.enc_game(md, sizes), "params": game.enc_params(md)}
                 ctx.oblige(f"C20/{model}/{op}/rebuild-identical[via={via}]@{shape}", game.compare_outcomes(ra, rb),
                            meta={"replay": mk, "fn": f"{model}.{op}", "shape": shape})
-                if op == "predict_win" and via == "rating" and sizes == (1, 1):
+                if op == "predict_win" and via == "rating" and sizes == (1, 1) and not generic:
                     g3 = game.mk_teams(ctx, S, sizes)
                     g3[0][0].mu = g3[0][0].mu + 1.0
                     rc = _do(m2, op, g3, ranks)
@@ -288,7 +312,7 @@ def unit_rebuild(model, sizes, ranks, twins=False):
             explore(ctx, run)
             recs += _merge_canaries(settle(ctx.all_obls, mode="U"))
     # league step: game, rebuild every player from (mu, sigma), next game
-    if ranks is None and not twins:
+    if ranks is None and not twins and not generic:
         for op in OPS:
             ctx = Ctx("U")
 
@@ -314,7 +338,8 @@ def unit_rebuild(model, sizes, ranks, twins=False):
 def units(tier):
     shapes = SHAPES_QUICK if tier == "quick" else SHAPES_THOROUGH
     return [("unit_ctor", (m,)) for m in extract.MODELS] + [("unit_rebuild", (m, s, r)) for m in extract.MODELS for (s, r) in shapes] + \
-        [("unit_rebuild", (m, (2, 1), [1, 2], True)) for m in extract.MODELS]
+        [("unit_rebuild", (m, (2, 1), [1, 2], True)) for m in extract.MODELS] + \
+        [("unit_rebuild", (m, (1,) * n, r, False, True)) for m in extract.MODELS for (n, r) in ([(2, [2, 1]), (3, None)] if tier == "quick" else [(2, [2, 1]), (2, None), (3, None), (3, [1, 2, 1]), (4, None)])]
 
 
 def main(tier, seed):
